@@ -113,7 +113,7 @@ pub fn log_len() -> usize {
 // ---------------------------------------------------------------------------------------------
 // run-time inputs
 // ---------------------------------------------------------------------------------------------
-pub const NINP: usize = 64;
+pub const NINP: usize = 512;
 #[allow(clippy::declare_interior_mutable_const)]
 const Z: AtomicI64 = AtomicI64::new(0);
 pub static INP: [AtomicI64; NINP] = [Z; NINP];
